@@ -8,7 +8,6 @@ import sympy as sp
 from spec import curves as C
 from vf.cvc_alg import witness as W
 from vf.cvc_alg.contract import ConstEq, E, FnContract, Holds, NotIdentZero, Zero
-from vf.cvc_alg.engine import IntV, PtrV
 from .ec_ws import frac
 from . import ed25519 as ED
 
